@@ -1,4 +1,5 @@
 import ZapVerif.Model.Callers
+import ZapVerif.Proofs.TransCaller
 import ZapVerif.Proofs.Callers
 /-! # C15 — caller and stack annotations identify the user's call site
 
@@ -264,5 +265,74 @@ example : (run [.sugar, .with_, .withOptions [1], .desugar, .withOptions [1], .s
 
 example : (logVia ({} : Logger) (.logger "Info") true true 64 [100, 101, 102] [1] ([] ++ 42 :: [50, 51, 99])).stack =
     some [42, 50, 51] := by decide
+
+end ZapVerif.C15
+
+/-! ## the model's path trimming IS the source (Go→GoMini translation, docs/TRANSLATOR.md)
+
+`Gen/TransCaller.lean` holds `EntryCaller.FullPath` and `EntryCaller.TrimmedPath` as read from zapcore/entry.go on this
+run.  For every file path (any length < 2^63, any number of separators) and line the interpreted functions return
+exactly `Callers.fullPath` / `Callers.trimmedPath`; the slice expressions `ec.File[:idx]` and `ec.File[idx+1:]` are in
+bounds.  `strconv` (`buf.AppendInt`) is the external intrinsic `itoa`. -/
+namespace ZapVerif.C15
+set_option linter.unusedSimpArgs false
+open ZapVerif ZapVerif.Callers ZapVerif.GoMini ZapVerif.TransCaller ZapVerif.Gen.TransCaller
+
+/-- body of `FullPath` ≡ `Callers.fullPath` -/
+theorem FullPath_exec_matches_source (d : Bool) (file : Bytes) (line : Nat) (fuel : Nat)
+    (hline : (line : Int) < 9223372036854775808) :
+    (exec X (fuel + 1) FullPath_body ⟨[], cfld d file line⟩).fin =
+      some ([.bytes (fullPath d file line)], cfld d file line) := by
+  rw [exec_succ]
+  have hw : wrap .i64 (line : Int) = line := by rw [wrap_i64_id] <;> omega
+  have hu : Bytes.ofString "undefined" = [117, 110, 100, 101, 102, 105, 110, 101, 100] := by decide +kernel
+  cases d <;> simp [FullPath_body, fullPath, hw, hu]
+
+/-- `ec.FullPath()` ≡ `Callers.fullPath` -/
+theorem FullPath_matches_source (d : Bool) (file : Bytes) (line : Nat) (fuel : Nat)
+    (hline : (line : Int) < 9223372036854775808) :
+    run X (fuel + 1) "FullPath" [] (cfld d file line) = .done [.bytes (fullPath d file line)] (cfld d file line) :=
+  run_of_fin X _ _ Gen.TransCaller.FullPath [] _ _ _ rfl rfl (FullPath_exec_matches_source d file line fuel hline)
+
+/-- `ec.TrimmedPath()` ≡ `Callers.trimmedPath`: "undefined" for an undefined caller; the full path when the file has
+    fewer than two separators; otherwise everything after the penultimate separator, `:`, the line — for every path -/
+theorem TrimmedPath_matches_source (d : Bool) (file : Bytes) (line : Nat) (fuel : Nat)
+    (hline : (line : Int) < 9223372036854775808) (hfile : (file.length : Int) < 9223372036854775808) :
+    run X (fuel + 2) "TrimmedPath" [] (cfld d file line) = .done [.bytes (trimmedPath d file line)] (cfld d file line) := by
+  refine run_of_fin X _ _ Gen.TransCaller.TrimmedPath [] _ _ _ rfl rfl ?_
+  show (exec X (fuel + 2) TrimmedPath_body ⟨[], cfld d file line⟩).fin = _
+  rw [exec_succ]
+  have hfull : ∀ (σ : State) (l : LV), retK σ [l] "FullPath" (exec X (fuel + 1) FullPath_body ⟨[], cfld d file line⟩) =
+      .normal (({ σ with fld := cfld d file line } : State).assign1 l (.bytes (fullPath d file line))) :=
+    fun σ l => retK_of_fin1 σ l "FullPath" _ _ _ (FullPath_exec_matches_source d file line fuel hline)
+  have hw : wrap .i64 (line : Int) = line := by rw [wrap_i64_id] <;> omega
+  have hu : Bytes.ofString "undefined" = [117, 110, 100, 101, 102, 105, 110, 101, 100] := by decide +kernel
+  cases d
+  · simp [TrimmedPath_body, trimmedPath, hu]
+  · cases h1 : lastIndexOf slash file with
+    | none =>
+      have e1 : lastIndexByte file 47 = -1 := by rw [lastIndexByte_eq]; simp [show (47 : UInt8) = slash from rfl, h1]
+      simp [TrimmedPath_body, trimmedPath, trimmedFile, fullPath, h1, e1, hfull]
+    | some idx =>
+      have e1 : lastIndexByte file 47 = idx := by rw [lastIndexByte_eq]; simp [show (47 : UInt8) = slash from rfl, h1]
+      have hlt := lastIndexOf_lt slash file idx h1
+      have hne : ¬ ((idx : Int) = -1) := by omega
+      have hb1 : (0 : Int) ≤ idx ∧ (idx : Int) ≤ file.length := by omega
+      cases h2 : lastIndexOf slash (file.take idx) with
+      | none =>
+        have e2 : lastIndexByte (file.take idx) 47 = -1 := by
+          rw [lastIndexByte_eq]; simp [show (47 : UInt8) = slash from rfl, h2]
+        simp [TrimmedPath_body, trimmedPath, trimmedFile, fullPath, h1, h2, e1, e2, hfull, hne, hb1, sliceVal_bytes]
+      | some idx2 =>
+        have e2 : lastIndexByte (file.take idx) 47 = idx2 := by
+          rw [lastIndexByte_eq]; simp [show (47 : UInt8) = slash from rfl, h2]
+        have hlt2 := lastIndexOf_lt slash (file.take idx) idx2 h2
+        have hlt2' : idx2 < idx := by simp at hlt2; omega
+        have hne2 : ¬ ((idx2 : Int) = -1) := by omega
+        have hw2 : wrap .int ((idx2 : Int) + 1) = ((idx2 + 1 : Nat) : Int) := by rw [wrap_int_id] <;> omega
+        have hb2 : (0 : Int) ≤ (idx2 : Int) + 1 ∧ (idx2 : Int) + 1 ≤ file.length := by omega
+        have htake : file.take file.length = file := List.take_length
+        simp [TrimmedPath_body, trimmedPath, trimmedFile, h1, h2, e1, e2, hne, hne2, hb1, hb2, hw, hw2,
+          sliceVal_bytes, htake]
 
 end ZapVerif.C15
